@@ -19,6 +19,7 @@ class Base {
   public static function smpu() { return 31; } protected static function smpr() { return 32; } private static function smpv() { return 33; }
   public function peek($k) { if ($k == 0) { return $this->pu; } if ($k == 1) { return $this->pr; } return $this->pv; }
   public function same($w) { SAME }
+  public function same2($o, $w) { SAMEB }
 }
 class Child extends Base {
   public function sub($w) { SUB }
@@ -67,10 +68,14 @@ var readVals = [][]int{{1, 2, 3}, nil, {11, 12, 13}, {21, 22, 23}, {31, 32, 33},
 // H_visibility: (member kind x modifier) x access site.
 func H_visibility() {
 	kind, m := symx.Choose("kind", 7), symx.Choose("mod", 3)
-	site := symx.Choose("site", 6) // 0 outside, 1 same class, 2 subclass, 3 unrelated class, 4 closure in global code, 5 another subclass of the same parent acting on a Child instance
+	// 0 outside, 1 same class, 2 subclass, 3 unrelated class, 4 closure in global code, 5 another subclass of the
+	// same parent acting on a Child instance, 6 code of the declaring class acting on an instance of a
+	// SUBCLASS passed in a variable, 7 the same code inherited by and running on a subclass object, acting on
+	// an instance of the declaring class
+	site := symx.Choose("site", 8)
 	w := symx.Int("w")
 	src := fixture
-	same, sub, sib, bro := "return 0;", "return 0;", "return 0;", "return 0;"
+	same, sub, sib, bro, sameB := "return 0;", "return 0;", "return 0;", "return 0;", "return 0;"
 	main := ""
 	switch site {
 	case 0:
@@ -87,17 +92,23 @@ func H_visibility() {
 	case 5:
 		bro = guarded(access(kind, m, "$o")) + " return 0;"
 		main = "$o = new Child(); $s = new Bro(); $s->bro($o, $w); emit($o->peek(" + string(rune('0'+m)) + "));"
+	case 6:
+		sameB = guarded(access(kind, m, "$o")) + " return 0;"
+		main = "$o = new Child(); $s = new Base(); $s->same2($o, $w); emit($o->peek(" + string(rune('0'+m)) + "));"
+	case 7:
+		sameB = guarded(access(kind, m, "$o")) + " return 0;"
+		main = "$o = new Base(); $s = new Child(); $s->same2($o, $w); emit($o->peek(" + string(rune('0'+m)) + "));"
 	case 4:
 		main = "$o = new Base(); $f = function() use ($o, $w) { " + guarded(access(kind, m, "$o")) + " return 0; }; $f(); emit($o->peek(" + string(rune('0'+m)) + "));"
 	}
-	src = replace(replace(replace(replace(src, "SAME", same), "SUB", sub), "SIB", sib), "BRO", bro) + "\n$w = $pw;\n" + main
+	src = replace(replace(replace(replace(replace(src, "SAMEB", sameB), "SAME", same), "SUB", sub), "SIB", sib), "BRO", bro) + "\n$w = $pw;\n" + main
 	s := sx.Compile(src)
 	symx.Assert(s.Err == nil, "fixture parses")
 	if s.Err != nil {
 		return
 	}
 	_, ctl := s.Run(sx.Bind{Name: "pw", V: sx.Int(w)})
-	allowed := m == 0 || (m == 1 && (site == 1 || site == 2)) || (m == 2 && site == 1)
+	allowed := m == 0 || (m == 1 && (site == 1 || site == 2)) || (m == 2 && site == 1) || site == 6 || site == 7
 	// a protected member reached from another descendant of its class: the statement only bounds
 	// visibility from above ("only from its class and descendants"); either outcome is accepted,
 	// but a denied write must still have no effect
